@@ -228,6 +228,26 @@ def _passive(case, rec):
                                  voltage_solver=case["backend"], where="data_stimulate"))
         rec.check("data_equiv", o3.shape == out.shape and np.max(np.abs(o3 - out)) <= 1e-12 * scale, what="data_stimulate != stimulate",
                   max_dev=float(np.max(np.abs(o3 - out))) if o3.shape == out.shape else None, **tag)
+        # mixed: every other stimulus static (stimulate), the rest data-fed, in the same integrate call
+        m3 = build.build_structure(st)
+        build.set_passive(m3, p, leak=False)
+        dsl, si = None, 0
+        for what, i in case["order"]:
+            if what == "s":
+                s = case["stims"][i]
+                w = np.asarray(s["w"])
+                arr = jnp.asarray(w[0]) if s["one_d"] else jnp.asarray(w)
+                if si % 2 == 0:
+                    m3.select(nodes=np.asarray(s["rows"])).stimulate(arr, verbose=False)
+                else:
+                    dsl = m3.select(nodes=np.asarray(s["rows"])).data_stimulate(arr, dsl)
+                si += 1
+            else:
+                m3.select(nodes=np.asarray(case["recs"][i]["rows"])).record("v", verbose=False)
+        o4 = np.asarray(rec.call("data_equiv", jx.integrate, m3, data_stimuli=dsl, delta_t=dt, solver=case["solver"],
+                                 voltage_solver=case["backend"], where="stimulate + data_stimulate"))
+        rec.check("data_equiv", o4.shape == out.shape and np.max(np.abs(o4 - want)) / scale <= 1e-8, what="static + data-fed stimuli together differ from the reference",
+                  max_dev=float(np.max(np.abs(o4 - want))) if o4.shape == out.shape else None, **tag)
     except Refused:
         pass
 
